@@ -331,7 +331,34 @@ func (a *analyzer) acquisition(c *ast.CallExpr) acqRow {
 		}
 		break
 	}
+	// the function whose paths are followed: the innermost one — but a function literal that is CALLED WHERE IT STANDS (as a
+	// statement, as the single right-hand side of an assignment, as the single result of a return) is a part of the function
+	// around it (the engine walks into it: `inline`), so a value acquired inside such a literal and handed back to the
+	// enclosing function is followed there (expand.go turns single-use private helpers into this form)
 	fn := a.enclosingFunc(c)
+	for {
+		lit, ok := fn.(*ast.FuncLit)
+		if !ok {
+			break
+		}
+		call, ok := a.parents[lit].(*ast.CallExpr)
+		if !ok || call.Fun != ast.Expr(lit) {
+			break
+		}
+		inPlace := false
+		switch p := a.parents[call].(type) {
+		case *ast.ExprStmt:
+			inPlace = true
+		case *ast.AssignStmt:
+			inPlace = len(p.Rhs) == 1
+		case *ast.ReturnStmt:
+			inPlace = len(p.Results) == 1
+		}
+		if !inPlace {
+			break
+		}
+		fn = a.enclosingFunc(call)
+	}
 	var lhs []ast.Expr
 	var def ast.Node
 	switch p := a.parents[top].(type) {
